@@ -680,11 +680,14 @@ def jobs(tier):
     out.append({'harness': 'step', 'fn': h_step, 'params': {}, 'requires': ['after_refill']})
     out.append({'harness': 'unlimited', 'fn': h_unlimited, 'params': {}, 'requires': ['unlimited', 'limited']})
     k = 4 if q else 5
-    for kb in ([1, 7, 1000] if q else [1, 2, 7, 64, 1000, 10000]):
+    for kb in ([1, 7, 1000] if q else [1, 7, 1000, 10000]):
         out.append({'harness': 'window', 'fn': h_window, 'params': {'k': k, 'kbps': kb}, 'requires': ['window_end']})
+    if not q:
+        for kb in (2, 64):
+            out.append({'harness': 'window', 'fn': h_window, 'params': {'k': 4, 'kbps': kb}, 'requires': ['window_end']})
     for d in ('upload', 'download'):
         for ca in range(1, k):
-            for (a, b) in ([(2, 1)] if (q and d == 'download') else [(2, 1), (1, 3)] if q else [(2, 1), (1, 3), (1000, 7)]):
+            for (a, b) in ([(2, 1)] if (q and d == 'download') else [(2, 1), (1, 3)] if q else [(2, 1), (1, 3)] if d == 'download' else [(2, 1), (1, 3), (1000, 7)]):
                 out.append({'harness': 'window', 'fn': h_window,
                             'params': {'k': k, 'kbps': a, 'change_at': ca, 'new_kbps': b, 'direction': d}, 'requires': ['window_end']})
         out.append({'harness': 'window', 'fn': h_window,
@@ -698,7 +701,8 @@ def jobs(tier):
                             'params': {'op': op, 'conn_state': st, 'old_kbps': a, 'new_kbps': b}, 'requires': ['conn_end']})
     import itertools as _it
     orders = [[0, 1, 0, 1], [0, 1, 1, 0], [0, 0, 1, 1], [0, 1, 0, 0]] if q else \
-        [list(o) for o in _it.product(range(2), repeat=5) if o[0] == 0] + [[0, 1, 2, 0, 1, 2], [0, 1, 2, 2, 1, 0]]
+        [list(o) for o in _it.product(range(2), repeat=4) if o[0] == 0] + \
+        [[0, 1, 0, 1, 0], [0, 1, 1, 0, 0], [0, 0, 1, 1, 0], [0, 1, 0, 0, 1], [0, 1, 2, 0, 1, 2], [0, 1, 2, 2, 1, 0]]
     for o in orders:
         for low in (True, False):
             out.append({'harness': 'callers', 'fn': h_callers, 'params': {'n': max(o) + 1, 'order': o, 'kbps': 1, 'low': low},
